@@ -404,11 +404,11 @@ func runC11(c *Ctx) {
 						okRet = false
 						continue
 					}
-					rc := core.Strip(r.Results[0])
+					rc := core.Strip(connRes(r))
 					if mi, ok := rc.(*ssa.MakeInterface); ok {
 						rc = mi.X
 					}
-					nrc, isNR := r.Results[1].(*ssa.Call)
+					nrc, isNR := readerRes(r).(*ssa.Call)
 					if !isNR || core.StaticCallee(nrc) != c.P.Func("buffer", "NewReader") {
 						okRet = false
 						continue
@@ -452,7 +452,7 @@ func runC11(c *Ctx) {
 			if !core.InstrDominates(anchor, r) {
 				continue
 			}
-			rc := core.Strip(r.Results[0])
+			rc := core.Strip(connRes(r))
 			if mi, ok := rc.(*ssa.MakeInterface); ok {
 				rc = mi.X
 			}
@@ -460,9 +460,9 @@ func runC11(c *Ctx) {
 			okReader := false
 			if wrapCall != nil {
 				okConn = rc == resultOf(wrapCall, 0)
-				okReader = r.Results[1] == resultOf(wrapCall, 1)
+				okReader = readerRes(r) == resultOf(wrapCall, 1)
 			}
-			if call, ok := r.Results[1].(*ssa.Call); ok && core.StaticCallee(call) == nr {
+			if call, ok := readerRes(r).(*ssa.Call); ok && core.StaticCallee(call) == nr {
 				src := core.Strip(call.Call.Args[1])
 				if mi, ok := src.(*ssa.MakeInterface); ok {
 					src = mi.X
@@ -690,7 +690,7 @@ func runC11(c *Ctx) {
 				if !core.InstrDominates(ci, r) {
 					continue
 				}
-				R.Check(len(r.Results) >= 2 && r.Results[0] == ssa.Value(connP2) && r.Results[1] == ssa.Value(readerP2), "C11.R3", "sslUnsupported:same-conn-and-reader", c.at(r), "after 'N' the same connection and reader continue", "the caller of the 'N' step returns its own conn and reader parameters", "after the 'N' step a different connection or reader is returned (bytes already buffered behind the SSLRequest would be lost or re-framed)")
+				R.Check(len(r.Results) >= 2 && connRes(r) == ssa.Value(connP2) && readerRes(r) == ssa.Value(readerP2), "C11.R3", "sslUnsupported:same-conn-and-reader", c.at(r), "after 'N' the same connection and reader continue", "the caller of the 'N' step returns its own conn and reader parameters", "after the 'N' step a different connection or reader is returned (bytes already buffered behind the SSLRequest would be lost or re-framed)")
 			}
 		}
 	}
@@ -698,7 +698,7 @@ func runC11(c *Ctx) {
 		if !inN(r) || (!handsBackConn && sun != pcu) {
 			continue
 		}
-		R.Check(r.Results[0] == ssa.Value(nConn) && r.Results[1] == ssa.Value(nReader), "C11.R3", "sslUnsupported:same-conn-and-reader", c.at(r), "after 'N' the same connection and reader continue", "returns its conn and reader parameters", "sslUnsupported returns a different connection or reader (bytes already buffered behind the SSLRequest would be lost or re-framed)")
+		R.Check(connRes(r) == ssa.Value(nConn) && readerRes(r) == ssa.Value(nReader), "C11.R3", "sslUnsupported:same-conn-and-reader", c.at(r), "after 'N' the same connection and reader continue", "returns its conn and reader parameters", "sslUnsupported returns a different connection or reader (bytes already buffered behind the SSLRequest would be lost or re-framed)")
 	}
 	rv := c.P.Method("wire", "Server", "readVersion")
 	if rv == nil {
@@ -715,7 +715,15 @@ func runC11(c *Ctx) {
 		// cancel refused
 		ver := resultOf(ci.(*ssa.Call), 0)
 		refused := false
-		for _, e := range constEqEdges(ver, versionCancel, true) {
+		// the test may be made on the merge of the re-read version with the version handed in (single-exit style)
+		cancelEdges := constEqEdges(ver, versionCancel, true)
+		for _, ref := range core.Referrers(ver) {
+			if ph, isPhi := ref.(*ssa.Phi); isPhi {
+				cancelEdges = append(cancelEdges, constEqEdges(ph, versionCancel, true)...)
+			}
+		}
+		cancelEdges = append(cancelEdges, c.cancelPredicateEdges(ver)...)
+		for _, e := range cancelEdges {
 			blk := e.to()
 			if r, ok := blk.Instrs[len(blk.Instrs)-1].(*ssa.Return); ok {
 				if cls := c.Err().Classify(errOperand(r), blk); cls.NeverNil() {
@@ -952,4 +960,86 @@ func (c *Ctx) certGuards(fn *ssa.Function, depth int) (cfgNonNil, certsNonEmpty 
 func (c *Ctx) isSSLReply(g *ssa.Global) bool {
 	gs, gn := c.sslReplies()
 	return g != nil && (g == gs || g == gn)
+}
+
+// connRes / readerRes: the connection and the reader among the results of a negotiation step, found by type (the
+// order of the results is the step's own business).
+func connRes(r *ssa.Return) ssa.Value {
+	res := r.Parent().Signature.Results()
+	for i := 0; i < res.Len() && i < len(r.Results); i++ {
+		if core.IsNamed(res.At(i).Type(), "net", "Conn") {
+			return r.Results[i]
+		}
+	}
+	if len(r.Results) > 0 {
+		return r.Results[0]
+	}
+	return nil
+}
+
+func readerRes(r *ssa.Return) ssa.Value {
+	res := r.Parent().Signature.Results()
+	for i := 0; i < res.Len() && i < len(r.Results); i++ {
+		if core.IsNamed(res.At(i).Type(), pkBuffer, "Reader") {
+			return r.Results[i]
+		}
+	}
+	if len(r.Results) > 1 {
+		return r.Results[1]
+	}
+	return nil
+}
+
+// cancelPredicateEdges: the edges on which a one-line predicate of the package (isCancelRequest(version) { return
+// version == VersionCancel }) applied to v, or to a merge v enters, says "CancelRequest".
+func (c *Ctx) cancelPredicateEdges(v ssa.Value) []edge {
+	var out []edge
+	cands := []ssa.Value{v}
+	for _, ref := range core.Referrers(v) {
+		if ph, isPhi := ref.(*ssa.Phi); isPhi {
+			cands = append(cands, ph)
+		}
+	}
+	for _, cv := range cands {
+		for _, ref := range core.Referrers(cv) {
+			call, isCall := ref.(*ssa.Call)
+			if !isCall {
+				continue
+			}
+			h := core.StaticCallee(call)
+			if h == nil || !c.P.InPkg(h, "wire") || len(h.Blocks) != 1 {
+				continue
+			}
+			rs := returns(h)
+			if len(rs) != 1 || len(rs[0].Results) != 1 {
+				continue
+			}
+			hb, isB := rs[0].Results[0].(*ssa.BinOp)
+			if !isB || (hb.Op != token.EQL && hb.Op != token.NEQ) {
+				continue
+			}
+			k, ok := core.ConstInt(hb.Y)
+			pv := hb.X
+			if !ok {
+				k, ok = core.ConstInt(hb.X)
+				pv = hb.Y
+			}
+			prm, isP := core.StripConv(pv).(*ssa.Parameter)
+			if !ok || k != versionCancel || !isP {
+				continue
+			}
+			// the parameter tested is the one that receives cv
+			idx := -1
+			for i, q := range h.Params {
+				if q == prm {
+					idx = i
+				}
+			}
+			if idx < 0 || idx >= len(call.Call.Args) || call.Call.Args[idx] != cv {
+				continue
+			}
+			out = append(out, boolEdges(call, hb.Op == token.EQL)...)
+		}
+	}
+	return out
 }
